@@ -396,6 +396,11 @@ Definition fp_ravel (es st rows : Z) : list access := [rd B_DST 0 (rows * st * e
 Definition fp_fill (es st rows : Z) : list access :=
   map (fun e => wr B_DST (e * es) es es) (zrange 0 (rows * st)).
 
+(* `resize`: `self.data.resize_with(rows, Default::default)`: growing from rows0 to rows1 writes a default
+   row (its C cells) at every new index; shrinking writes nothing *)
+Definition fp_resize (es C st rows0 rows1 : Z) : list access :=
+  map (fun r => wr B_DST (r * st * es) (C * es) es) (zrange rows0 rows1).
+
 (* `StripedSequence::sample`: `data = uninitialized((length + C - 1) / C)`;
    `for row in data.iter_mut() { for (x, y) in row.iter_mut().zip(..) { *x = symbols[y] } }`:
    every one of the C one-byte cells of every row is written *)
